@@ -38,6 +38,65 @@ def _job(args):
     return H.run_job(prop, hname, params, tier, seed)
 
 
+def _child(conn, job):
+    try:
+        r = _job(job)
+    except BaseException as e:  # noqa
+        import traceback
+        r = {'harness': job[1], 'params': job[2], 'error': '%s: %s\n%s' % (type(e).__name__, e, traceback.format_exc()[-2000:])}
+    try:
+        conn.send(r)
+    finally:
+        conn.close()
+
+
+def _run_jobs(jobs, nproc, tier):
+    """one forked process per job, at most nproc at a time; a job that outlives the in-process limit by a margin is killed and
+    reported as inconclusive (a solver call that does not return cannot be stopped from inside)"""
+    soft = int(os.environ.get('SYMX_JOB_LIMIT_S', '900' if tier == 'quick' else '5400'))
+    hard = soft + 120
+    ctx = mp.get_context('fork')
+    results = [None] * len(jobs)
+    pending = list(range(len(jobs)))
+    running = {}
+    while pending or running:
+        while pending and len(running) < nproc:
+            i = pending.pop(0)
+            pc, cc = ctx.Pipe(duplex=False)
+            pr = ctx.Process(target=_child, args=(cc, jobs[i]))
+            pr.start()
+            cc.close()
+            running[i] = (pr, pc, time.time())
+        done = []
+        for i, (pr, pc, t0) in running.items():
+            if pc.poll(0.02):
+                try:
+                    results[i] = pc.recv()
+                except EOFError:
+                    results[i] = {'harness': jobs[i][1], 'params': jobs[i][2], 'error': 'worker died without a result (exit code %s)' % pr.exitcode}
+                done.append(i)
+            elif not pr.is_alive():
+                if pc.poll(0.2):
+                    try:
+                        results[i] = pc.recv()
+                    except EOFError:
+                        results[i] = None
+                if results[i] is None:
+                    results[i] = {'harness': jobs[i][1], 'params': jobs[i][2], 'error': 'worker died without a result (exit code %s)' % pr.exitcode}
+                done.append(i)
+            elif time.time() - t0 > hard:
+                pr.kill()
+                results[i] = {'harness': jobs[i][1], 'params': jobs[i][2], 'error': 'BoundExceeded: job killed after %d s (solver call did not return)' % hard}
+                done.append(i)
+        for i in done:
+            pr, pc, _ = running.pop(i)
+            pr.join(5)
+            pc.close()
+        if not done:
+            time.sleep(0.05)
+    return results
+
+
 def main(argv=None):
     ap = argparse.ArgumentParser()
     ap.add_argument('prop')
@@ -81,12 +140,10 @@ def main(argv=None):
         return EXIT_HARNESS
     # longest first is unknown; keep declared order
     nproc = max(1, min(a.jobs, len(jobs)))
-    if nproc == 1:
+    if nproc == 1 and os.environ.get('SYMX_INPROCESS'):
         results = [_job(j) for j in jobs]
     else:
-        ctx = mp.get_context('fork')
-        with ctx.Pool(nproc, maxtasksperchild=1) as pool:
-            results = pool.map(_job, jobs, chunksize=1)
+        results = _run_jobs(jobs, nproc, tier)
 
     if a.v:
         for r in sorted(results, key=lambda r: -(r.get('wall_s') or 0)):
